@@ -30,6 +30,7 @@ CATALOGUE = {
     # length
     "m": (L, 1.0, 0.0), "meter": (L, 1.0, 0.0), "km": (L, 1e3, 0.0), "cm": (L, 1e-2, 0.0),
     "mm": (L, 1e-3, 0.0), "um": (L, 1e-6, 0.0), "gpm": (L, 1.0, 0.0),
+    "nm": (L, 1e-9, 0.0), "pm": (L, 1e-12, 0.0),
     # time
     "s": (T, 1.0, 0.0), "min": (T, 60.0, 0.0), "h": (T, 3600.0, 0.0), "hour": (T, 3600.0, 0.0),
     "d": (T, 86400.0, 0.0), "day": (T, 86400.0, 0.0), "year": (T, 365.25 * 86400.0, 0.0), "ms": (T, 1e-3, 0.0),
@@ -38,16 +39,19 @@ CATALOGUE = {
     "m/s": (SPEED, 1.0, 0.0), "m s-1": (SPEED, 1.0, 0.0), "km/h": (SPEED, 1000.0 / 3600.0, 0.0),
     "mm/d": (SPEED, 1e-3 / 86400.0, 0.0), "mm d-1": (SPEED, 1e-3 / 86400.0, 0.0), "mm/day": (SPEED, 1e-3 / 86400.0, 0.0),
     "mm/h": (SPEED, 1e-3 / 3600.0, 0.0), "cm/h": (SPEED, 1e-2 / 3600.0, 0.0), "mm s-1": (SPEED, 1e-3, 0.0),
+    "mm/year": (SPEED, 1e-3 / (365.25 * 86400.0), 0.0), "cm/year": (SPEED, 1e-2 / (365.25 * 86400.0), 0.0),
+    "nm/s": (SPEED, 1e-9, 0.0), "pm/s": (SPEED, 1e-12, 0.0),
     # area / volume
     "m2": (AREA, 1.0, 0.0), "m**2": (AREA, 1.0, 0.0), "km2": (AREA, 1e6, 0.0), "ha": (AREA, 1e4, 0.0),
     "cm2": (AREA, 1e-4, 0.0), "m3": (VOL, 1.0, 0.0), "l": (VOL, 1e-3, 0.0), "km3": (VOL, 1e9, 0.0),
     # discharge
     "m3/s": (FLOW, 1.0, 0.0), "m3 s-1": (FLOW, 1.0, 0.0), "l/s": (FLOW, 1e-3, 0.0), "m3/d": (FLOW, 1.0 / 86400.0, 0.0),
     # mass
-    "kg": (M, 1.0, 0.0), "g": (M, 1e-3, 0.0), "t": (M, 1e3, 0.0), "mg": (M, 1e-6, 0.0),
+    "kg": (M, 1.0, 0.0), "g": (M, 1e-3, 0.0), "t": (M, 1e3, 0.0), "mg": (M, 1e-6, 0.0), "ug": (M, 1e-9, 0.0), "ng": (M, 1e-12, 0.0),
     # compound
     "kg m-2 s-1": (FLUX, 1.0, 0.0), "kg/m2/s": (FLUX, 1.0, 0.0), "g m-2 s-1": (FLUX, 1e-3, 0.0),
     "kg m-2 d-1": (FLUX, 1.0 / 86400.0, 0.0),
+    "ug m-3": (DENS, 1e-9, 0.0), "ng m-3": (DENS, 1e-12, 0.0), "ug/l": (DENS, 1e-6, 0.0),
     "kg/m3": (DENS, 1.0, 0.0), "g/l": (DENS, 1.0, 0.0), "g cm-3": (DENS, 1e3, 0.0),
     "Pa": (PRESS, 1.0, 0.0), "hPa": (PRESS, 100.0, 0.0), "bar": (PRESS, 1e5, 0.0), "mbar": (PRESS, 100.0, 0.0),
     "kPa": (PRESS, 1e3, 0.0), "N m-2": (PRESS, 1.0, 0.0),
